@@ -252,7 +252,20 @@ func coqRLE(b []byte) string {
 	lit := 0 // start of the pending literal segment
 	flush := func(end int) {
 		if end > lit {
-			segs = append(segs, hk.CoqBytes(b[lit:end]))
+			printable := true
+			for _, ch := range b[lit:end] {
+				if ch < 0x20 || ch > 0x7e || ch == '"' {
+					printable = false
+					break
+				}
+			}
+			if printable {
+				// half the characters of the hex form: a Coq string literal costs several
+				// hundred bytes of coqc memory per character
+				segs = append(segs, `(bs "`+string(b[lit:end])+`")`)
+			} else {
+				segs = append(segs, hk.CoqBytes(b[lit:end]))
+			}
 		}
 	}
 	for i := 0; i < len(b); {
@@ -348,10 +361,19 @@ func doTaggedBody(c *req.Client, base, tag, kind, round string, clone bool, dump
 			// another goroutine's CloseIdleConnections at the moment this request has picked its
 			// connection (h1: delivered; h2: stream slot reserved, stream not open; the hook is
 			// called exactly there): a connection in use must survive it
-			var once sync.Once
-			ctx = httptrace.WithClientTrace(ctx, &httptrace.ClientTrace{GotConn: func(httptrace.GotConnInfo) {
+			var once, once2 sync.Once
+			tr := &httptrace.ClientTrace{GotConn: func(httptrace.GotConnInfo) {
 				once.Do(func() { c.GetTransport().CloseIdleConnections() })
-			}})
+			}}
+			if len(tag)%2 == 0 {
+				// ... and once more when the request has been written (h1: before the response
+				// is read; h2: the stream is open, END_STREAM possibly not yet sent), together
+				// with a Clone of the client
+				tr.WroteRequest = func(httptrace.WroteRequestInfo) {
+					once2.Do(func() { c.GetTransport().CloseIdleConnections(); _ = c.Clone() })
+				}
+			}
+			ctx = httptrace.WithClientTrace(ctx, tr)
 		}
 		rq.SetContext(ctx)
 	}
